@@ -44,6 +44,8 @@ func runC19(c *Ctx) {
 			checkRuneParser(c, in, "R19-alphabet", sp)
 		}
 	})
+	r.Rule("R19-meta", "a decoded FEN's castling rights and en-passant square are compared with the placement, and the en-passant square with the side to move: some decision in the decoding family depends on both and rejects or repairs", 3)
+	c.guard("R19-meta", func() { c19Meta(c) })
 	c.guard("R19-err", func() { c19Err(c) })
 	c.guard("R19-square", func() { c19Square(c) })
 	c.guard("R19-index", func() { c19Index(c) })
